@@ -1,4 +1,4 @@
-from .common import LEAN_TB
+from .common import RUN_LOOP_SCENARIOS, RUN_WSSTREAM_SMALL, LEAN_TB
 
 PROP = {
     "id": "C17",
@@ -35,8 +35,12 @@ PROP = {
         "quick": {"gen": [(150, 4)]},
         "thorough": {"gen": [(1200, 5)]},
         "timeout": 1500,
-    }],
-    "keys": ["wsconc.*", "wshandshake.bytes-after-blank-line"],
+    },
+        # a read and a write in flight on one descriptor at poller level (the second interest must not replace the first), and reads
+        # that complete with an error while the stream is closing (components of C01 and C08)
+        RUN_LOOP_SCENARIOS, RUN_WSSTREAM_SMALL],
+    "keys": ["wsconc.*", "wshandshake.bytes-after-blank-line", "loop.operation-never-completed-although-ready", "loop.callback-twice",
+             "wsstream.state", "wsstream.hang", "wsstream.delivery"],
     "direct": [{"component": "wsconc", "timeout": 900}],
     "rule": "scripts = one client websocket.Stream attached (hook VerifAttach) to a real sonic.AsyncAdapter over a real loopback TCP "
             "connection whose other end is a std-library connection driven by the harness (independent RFC 6455 encoder for what the peer "
